@@ -88,7 +88,38 @@ def from_source():
     exact = "cp = page_by_pgno (ca, cn, pgno, subno, -1); if (NULL != cp) cp = cache_page_ref (cp);" in w
     clamp = "if (dir > 0 && subno < ps->subno_min) { subno = ps->subno_min; break; }" in w
     stop2 = w.count("if (wrapped) return -1;") == 2
-    return death, limit, nlimit, rule, exact, clamp, stop2
+    # _vbi_cache_foreach_page: START look-up through _vbi_cache_get_page (0x3F7F read as VBI_ANY_SUBNO, C17-D7) or
+    # exact (fixes/C17-turn-3f7f.diff); same strings as translate/gen_search.py
+    start_old = ("if ((cp = _vbi_cache_get_page (ca, cn, pgno, subno, -1))) { subno = cp->subno; } "
+                 "else if (VBI_ANY_SUBNO == subno) { cp = NULL; subno = 0; } ps = cache_network_page_stat (cn, pgno);")
+    start_new = ("cp = NULL; if (pgno >= 0x100 && pgno <= 0x8FF) { cp = page_by_pgno (ca, cn, pgno, subno, -1); "
+                 "if (NULL != cp) cp = cache_page_ref (cp); } ps = cache_network_page_stat (cn, pgno);")
+    if (start_old in w) == (start_new in w):
+        raise SystemExit("gen_cache: start look-up of _vbi_cache_foreach_page not recognised (neither / both of the known shapes)")
+    start_exact = start_new in w
+    # the look-up inside the loop occurs once (as found) or, textually the same, a second time as the start look-up
+    if w.count("cp = page_by_pgno (ca, cn, pgno, subno, -1);") != (2 if start_exact else 1):
+        raise SystemExit("gen_cache: look-ups of _vbi_cache_foreach_page not recognised")
+    # _vbi_cache_put_page: does a store under a single-version key (subno_mask 0) delete ALL cached versions
+    # of the page number (fixes/C10-put-replaces-all-versions.diff) or only the one the look-up found (F17)?
+    put = re.search(r"\n_vbi_cache_put_page\s*\(.*?\n}\n", src, flags=re.S)
+    if not put:
+        raise SystemExit("gen_cache: _vbi_cache_put_page not found")
+    u = re.sub(r"/\*.*?\*/", " ", put.group(0), flags=re.S)
+    u = re.sub(r"\s+", " ", u)
+    lookup = "old_cp = page_by_pgno (ca, cn, cp->pgno, subno & subno_mask, subno_mask);"
+    repaired = (lookup + " if (NULL != old_cp && 0 == subno_mask) { cache_page *cp2, *cp3; "
+                "FOR_ALL_NODES (cp2, cp3, ca->hash + hash (cp->pgno), hash_node) { "
+                "if (cp2 != old_cp && cp2->pgno == cp->pgno && cp2->network == cn) delete_page (ca, cp2); } "
+                "memory_available = ca->memory_limit - ca->memory_used; } if (NULL != old_cp) {")
+    asfound = lookup + " if (NULL != old_cp) {"
+    if repaired in u:
+        allv = True
+    elif asfound in u and "0 == subno_mask" not in u and u.count("delete_page (") == 1:
+        allv = False
+    else:
+        raise SystemExit("gen_cache: shape of the replace step of _vbi_cache_put_page not recognised")
+    return death, limit, nlimit, rule, exact, clamp, stop2, allv, start_exact
 
 def main():
     with tempfile.TemporaryDirectory() as d:
@@ -102,7 +133,7 @@ def main():
             raise SystemExit("gen_cache: probe does not compile:\n" + r.stdout.decode()[-2000:])
         out = subprocess.run([exe], stdout=subprocess.PIPE).stdout.decode()
     vals = [l.split() for l in out.strip().split("\n")]
-    death, limit, nlimit, rule, exact, clamp, stop2 = from_source()
+    death, limit, nlimit, rule, exact, clamp, stop2, allv, start_exact = from_source()
     lines = ["-- GENERATED by translate/gen_cache.py from src/cache-priv.h, src/cache.c - do not edit",
              "namespace Zvbi.Gen.Cache", ""]
     for k, v in vals:
@@ -125,6 +156,12 @@ def main():
     lines.append("def walkClampsToFirst : Bool := %s" % ("true" if clamp else "false"))
     lines.append("/-- _vbi_cache_foreach_page: returns -1 on the second wrap-around -/")
     lines.append("def walkStopsAtSecondWrap : Bool := %s" % ("true" if stop2 else "false"))
+    lines.append("/-- _vbi_cache_put_page: a store under a single-version key (subno_mask 0) deletes every cached version of")
+    lines.append("    the page number (repair of finding F17); false = only the version the look-up found -/")
+    lines.append("def putReplacesAllVersions : Bool := %s" % ("true" if allv else "false"))
+    lines.append("/-- _vbi_cache_foreach_page looks up its START position exactly (page_by_pgno behind the page number range test,")
+    lines.append("    fixes/C17-turn-3f7f.diff); false = through _vbi_cache_get_page, which reads 0x3F7F as VBI_ANY_SUBNO -/")
+    lines.append("def walkStartExact : Bool := %s" % ("true" if start_exact else "false"))
     lines += ["", "end Zvbi.Gen.Cache", ""]
     text = "\n".join(lines)
     old = open(OUT).read() if os.path.exists(OUT) else None
